@@ -7,7 +7,7 @@ class Upgrade(V.Family):
     props = ("C16",)
     driver_pkg = "upgrade"
     monitor = ("UpgradeTrace.tla", "UpgradeTrace.cfg")
-    step_keys = ("act", "S", "v")
+    step_keys = ("act", "S", "v", "op")
     reset_keys = ("n", "src", "kind", "mode", "lv", "dump", "store")
     min_halt_share = 0.1   # most attempts of the matrix are rejections by construction (signer sets x version bounds)
     assume = [
